@@ -250,6 +250,11 @@ def steady_state_transport_solver(
         if nz - 1 in levels:
             tfftp[lvl, 0, 0] = tfftp00
 
+        # the sweeps store levels in ascending order; return them as requested
+        rank = np.argsort(np.argsort(levels))
+        tfftp = tfftp[rank]
+        tfftq = tfftq[rank]
+
     # shift green function in Fourier space to measurement point
     if footprint:
         shift = np.exp(1j * (Lx * (xm + px * dx) + Ly * (ym + py * dy)))
